@@ -9,17 +9,93 @@ import finam as fm
 
 T0 = dt.datetime(2000, 1, 1)
 PAIRS = [("m", "km", 0.001, 0.0), ("km", "m", 1000.0, 0.0), ("mm", "cm", 0.1, 0.0), ("degC", "K", 1.0, 273.15),
-         ("K", "degC", 1.0, -273.15), ("percent", "", 0.01, 0.0), ("mm/d", "m/d", 0.001, 0.0), ("m", "m", 1.0, 0.0)]
+         ("K", "degC", 1.0, -273.15), ("percent", "", 0.01, 0.0), ("mm/d", "m/d", 0.001, 0.0), ("m", "m", 1.0, 0.0),
+         # units that are both tiny in SI base units (an absolute tolerance on base-unit factors would call them equal)
+         ("nm", "angstrom", 10.0, 0.0), ("ug/m^3", "ng/m^3", 1000.0, 0.0), ("ng", "ug", 0.001, 0.0), ("ps", "ns", 0.001, 0.0)]
 PTS = [[0.0, 0.0], [2.0, 0.0], [0.0, 2.0], [2.0, 2.0], [1.0, 0.7]]
 
 
 def gen(rng):
     return {"part": "unitlink", "pair": rng.randrange(len(PAIRS)), "dtype": rng.choice(["float", "float", "int"]),
-            "via": rng.choice(["direct", "scale", "nearest", "linear", "static", "trigger", "layout"]), "values": [rng.randint(-30, 60) for _ in PTS],
+            "via": rng.choice(["direct", "scale", "nearest", "linear", "static", "trigger", "layout", "relay"]), "values": [rng.randint(-30, 60) for _ in PTS],
             "order": rng.randrange(2), "days": rng.choice([2, 3, 4]),
             # the producer may hand over a quantity that is already in the *consumer's* units (converted to its own at the
             # push, back at the pull); the output may have to park the publication on disk
             "push_as_consumer": rng.random() < 0.3, "limit0": rng.random() < 0.3, "pulls": rng.choice([1, 2, 3])}
+
+
+class _Relay(fm.TimeComponent):
+    """pulls its input (declared in units `du`) and publishes the bare numbers on an output whose metadata are taken over from
+    the input's exchanged metadata (`FromInput`): what it publishes is labelled with the units its input delivers in"""
+
+    def __init__(self, du, grid):
+        super().__init__()
+        self._du, self._grid = du, grid
+        self.time = T0
+
+    def _next_time(self):
+        return self.time + dt.timedelta(days=1)
+
+    def _initialize(self):
+        self.inputs.add(name="In", time=None, grid=self._grid, units=self._du)
+        self.outputs.add(name="Out")
+        self.create_connector(pull_data=["In"], out_info_rules={"Out": [fm.tools.FromInput("In")]})
+
+    def _connect(self, start_time):
+        push = {}
+        d = self.connector.in_data.get("In")
+        if d is not None and not self.connector.data_pushed["Out"]:
+            push["Out"] = np.asarray(fm.data.get_magnitude(fm.data.strip_time(d, self._grid)), dtype=float)
+        self.try_connect(start_time, push_data=push)
+
+    def _validate(self):
+        pass
+
+    def _update(self):
+        self.time = self.time + dt.timedelta(days=1)
+        d = self.inputs["In"].pull_data(self.time)
+        self.outputs["Out"].push_data(np.asarray(fm.data.get_magnitude(fm.data.strip_time(d, self._grid)), dtype=float), self.time)
+
+    def _finalize(self):
+        pass
+
+
+def run_relay(case):
+    """source (su) >> relay input (du) ... relay output (metadata from its input) >> sink (su): the sink receives the source's
+    values, converted there and back"""
+    from ..fmutil import limited
+    su, du, _f, _o = PAIRS[case["pair"]]
+    day = dt.timedelta(days=1)
+    vals = np.array(case["values"], dtype=float)
+    got = []
+    try:
+        grid = fm.UnstructuredPoints(PTS)
+        src = fm.components.CallbackGenerator({"Out": (lambda t: vals + float((t - T0).days), fm.Info(time=None, grid=grid, units=su))}, start=T0, step=day)
+        relay = _Relay(du, fm.UnstructuredPoints(PTS))
+        sink = fm.components.DebugConsumer({"In": fm.Info(time=None, grid=fm.UnstructuredPoints(PTS), units=su)}, start=T0, step=day,
+                                           callbacks={"In": lambda n, d, t: got.append(((t - T0).days, [float(x) for x in np.asarray(fm.data.get_magnitude(d)).reshape(-1)], str(d.units)))})
+        comp = fm.Composition([src, relay, sink] if case.get("order", 0) == 0 else [sink, relay, src])
+        src.outputs["Out"] >> relay.inputs["In"]
+        relay.outputs["Out"] >> sink.inputs["In"]
+        limited(60, comp.run, end_time=T0 + case.get("days", 3) * day)
+        return {"series": got}
+    except Exception as e:  # noqa
+        return {"err": type(e).__name__, "msg": str(e)[:160]}
+
+
+def oracle_relay(case, impl):
+    su, du, f, o = PAIRS[case["pair"]]
+    if "err" in impl:
+        return ("data between compatible units crosses two links through a relaying component", {"error": impl["err"], "msg": impl["msg"]})
+    if len(impl["series"]) < 2:
+        return ("the consumer behind the relay receives the initial and the run-phase values", {"received": len(impl["series"])})
+    for day, vals, units in impl["series"]:
+        want = [float(x + day) for x in case["values"]]
+        if len(vals) != len(want) or any(abs(a - b) > 1e-6 * max(1.0, abs(b)) for a, b in zip(vals, want)):
+            return ("data crossing links with foreign units is converted with the factor and offset of dimensional analysis "
+                    "(there and back again: the published values arrive unchanged)",
+                    {"chain": [su, du, su], "day": day, "delivered": vals, "published": want})
+    return None
 
 
 def run_trigger(case):
@@ -66,6 +142,8 @@ def oracle_trigger(case, impl):
 def run(case):
     if case["via"] == "trigger":
         return run_trigger(case)
+    if case["via"] == "relay":
+        return run_relay(case)
     su, du, _f, _o = PAIRS[case["pair"]]
     grid = fm.UnstructuredPoints(PTS)
     via = case["via"]
@@ -121,6 +199,8 @@ def run(case):
 def oracle(case, impl):
     if case["via"] == "trigger":
         return oracle_trigger(case, impl)
+    if case["via"] == "relay":
+        return oracle_relay(case, impl)
     su, du, f, o = PAIRS[case["pair"]]
     if "err" in impl:
         return ("data between compatible units crosses the link", {"error": impl["err"], "msg": impl["msg"]})
